@@ -104,16 +104,16 @@ def work(chunk, points=None, tier='quick', quick_slice=0):
             err = abs(v - t['exact'])
             unit = t['S'] * t['fac']
             if CALIBRATE:
-                F = cm.env('E', method, n) / 100.0
+                F = max(cm.env('E' if gen[0] == 'default' else 'EU', method, n) / 100.0, 1e3 * EPS)
                 excess = err - F * unit
                 if excess > 0:
                     k = excess / e if e > 0 else float('inf')
-                    acc.maxi('K/%s/%d' % (method, n), (min(k, 1e300), '%s @%r order=%d gen=%r err=%.3g est=%.3g S=%.3g'
+                    acc.maxi('K/%s/%d/%s' % (method, n, gen[0] + ('-steep' if gen[1].get('step_ratio') == 4.0 else '') + ('-25' if gen[1].get('num_steps') == 25 else '')), (min(k, 1e300), '%s @%r order=%d gen=%r err=%.3g est=%.3g S=%.3g'
                                                        % (show, comb.x, order, gen, err, e, unit)))
                 acc.case(case, nontrivial=True, cell=cell)
                 return
             K1 = cm.env('K1', method, n)
-            F = cm.env('F', method, n)
+            F = cm.env('F' if gen[0] == 'default' else 'FU', method, n)
             bound = K1 * e + F * unit
             # non-trivial: the estimate (not the floor) is what has to cover the error scale
             nontriv = F * unit < abs(t['exact']) / 2
@@ -122,7 +122,9 @@ def work(chunk, points=None, tier='quick', quick_slice=0):
             if math.isfinite(err) and e > 0:
                 acc.maxi('worst_excess_over_estimate/%s/%d' % (method, n), max(err - F * unit, 0.0) / e)
             if not (err <= bound):
-                acc.violation('C02:Derivative:dishonest-estimate:%s:n=%d' % (method, n), jc,
+                gk = '' if gen[0] == 'default' else ':gen=' + gen[0] + (
+                    '-long' if (gen[1].get('num_steps') or 0) >= 20 else '')
+                acc.violation('C02:Derivative:dishonest-estimate:%s:n=%d%s' % (method, n, gk), jc,
                               'Derivative(%s, n=%d, %s, order=%d, gen=%r)(%r): error %.3g > K1=%g x estimate %.3g + '
                               'F=%g x S_n %.3g' % (show, n, method, order, gen, comb.x, err, K1, e, F, unit), rank)
 
@@ -182,7 +184,7 @@ def replay(case):
         v = c01._elem(res['val'], 'scalar')
         e = float(np.asarray(res['info'].error_estimate).ravel()[0])
         err = abs(v - t['exact'])
-        K1, F = cm.env('K1', method, n), cm.env('F', method, n)
+        K1, F = cm.env('K1', method, n), cm.env('F' if gen[0] == 'default' else 'FU', method, n)
         ok = ok and err <= K1 * e + F * t['S'] * t['fac']
         text += '; err %.3g, estimate %.3g, K1 %g, F*S %.3g' % (err, e, K1, F * t['S'] * t['fac'])
     return ok, '%s x=%r cfg=%r gen=%r: %s' % (c01.spec_show(spec), x, cfg, gen, text)
